@@ -839,7 +839,8 @@ def halo_edge_case(cs, k, form, orient, b, other=None):
     max_distance = k*cs (Python product, or the decimal literal), a chunk boundary after b cells between them, no other target:
     the inclusive limit max_distance == distance needs a halo of exactly k cells"""
     md = k * cs if form == 'prod' else round(k * cs, 10)
-    n = k + 3
+    n = 2 * k + 2           # both chunks stay at least k cells wide when the boundary is right before the probe (Dask merges
+                            # chunks smaller than the halo, which would hide a halo that is one cell short)
     if other is None:
         other = next((c for c in HALO_SIZES[::-1] + [1.0] if int(md / c + 0.5) <= 3), 1.0)
     along = [j * cs for j in range(n)]
@@ -868,7 +869,9 @@ def halo_edge_family(rng, per_config_k=None, all_boundaries=False):
             for k in ks:
                 orients = ['row', 'col'] if per_config_k is None else [['row', 'col'][(ci + fi + k) % 2]]
                 for orient in orients:
-                    bs = list(range(2, k + 2)) if all_boundaries else [rng.randint(2, k + 1)]
+                    # the boundary right before the probe is the one that needs the full k-cell halo
+                    bs = list(range(2, k + 2)) if all_boundaries else sorted({k + 1, rng.randint(2, k + 1)}
+                                                                             if per_config_k is None else {k + 1})
                     for b in bs:
                         out.append(halo_edge_case(cs, k, form, orient, b))
     return out
@@ -1013,7 +1016,7 @@ def run(ctx):
         # appended last: earlier draws stay as they were
         tc = theme_cases(ctx)
         check_cases(ctx, tc + [dict(WINDOW_CASE)], pool)
-        fam = halo_edge_family(ctx.rng, per_config_k=3) if ctx.quick() else halo_edge_family(ctx.rng)
+        fam = halo_edge_family(ctx.rng, per_config_k=2) if ctx.quick() else halo_edge_family(ctx.rng)
         check_cases(ctx, fam, pool)
         check_pairs(ctx, [p + ('reverse',) for p in pair_cases(ctx)[:1]], pool)
     finally:
